@@ -150,7 +150,28 @@ func (vc *VC) Text(n int, extra string) string {
 
 func qualifier(p *types.Package) string { return p.Path() }
 
+// typeKey names a type; all instantiations of a generic named type share one name (a generic body is
+// verified once, for its own type parameters).
 func typeKey(t types.Type) string {
+	switch x := t.(type) {
+	case *types.Named:
+		if x.Obj().Pkg() == nil {
+			return x.Obj().Name()
+		}
+		return x.Obj().Pkg().Path() + "." + x.Obj().Name()
+	case *types.Alias:
+		return typeKey(types.Unalias(x))
+	case *types.Pointer:
+		return "*" + typeKey(x.Elem())
+	case *types.Slice:
+		return "[]" + typeKey(x.Elem())
+	case *types.Array:
+		return fmt.Sprintf("[%d]%s", x.Len(), typeKey(x.Elem()))
+	case *types.Map:
+		return "map[" + typeKey(x.Key()) + "]" + typeKey(x.Elem())
+	case *types.Chan:
+		return "chan " + typeKey(x.Elem())
+	}
 	return types.TypeString(t, qualifier)
 }
 
